@@ -105,7 +105,7 @@ def emit(root, o):
         return root.to_boc(has_idx=bool(o['idx']), hash_crc32=bool(o['crc']), has_cache_bits=bool(o['cache']))
 
 
-def emit_with_hashes(root, which, corrupt=None):
+def emit_with_hashes(root, which, corrupt=None, claim=None):
     """input construction: a serialized_boc of root's DAG in which cells carry their stored hashes and depths (the "with hashes"
     descriptor flag): which = 'exotic' (special cells only), 'level' (cells of level > 0) or 'all'.  The stored values are the
     ones the live cells report; what the parser makes of the bag is judged by TLC like every other route."""
@@ -127,7 +127,8 @@ def emit_with_hashes(root, which, corrupt=None):
     for c in order:
         m = c.level_mask.mask
         ex = c.type_ != -1
-        wh = which == 'all' or (which == 'exotic' and ex) or (which == 'level' and m != 0)
+        wh = which == 'all' or (which == 'exotic' and ex) or (which == 'level' and m != 0) or (which == 'claimed' and id(c) in (claim or {}))
+        src = (claim or {}).get(id(c), c)             # claim: cells written with ANOTHER cell's hashes and depths next to them
         raw = c.to_boc()                              # only to take this cell's own descriptor/data bytes from a one-root bag
         bag, _, starts = scan(raw)
         own = raw[starts[0]:starts[1]]
@@ -138,10 +139,10 @@ def emit_with_hashes(root, which, corrupt=None):
             lv = [l for l in range(4) if l == 0 or (m >> (l - 1)) & 1]
             for l in lv:
                 stored.append((len(body), 32))
-                body += c.get_hash(l)
+                body += src.get_hash(l)
             for l in lv:
                 stored.append((len(body), 2))
-                body += c.get_depth(l).to_bytes(2, 'big')
+                body += src.get_depth(l).to_bytes(2, 'big')
         body += own[2:2 + nbytes]
         for r in c.refs:
             body += pos[id(r)].to_bytes(size, 'big')
